@@ -115,6 +115,7 @@ type Spec struct {
 	ExtraDecl string // extra package-level declarations (hostile identifiers)
 	ExtDecl   map[string]string // extra declarations per sibling package directory
 	Dynamic   bool   // all needed types carry identity; runnable
+	NoForward bool   // main package gets no helpers for sibling-package types (so it need not import those packages)
 	WireAltAliases bool // wire_sets.go imports every sibling package under another alias than wire.go
 	WireAllInSets  bool // every wire element goes into a named set (wire_sets.go)
 	KessokuAlias string // declaration files import kessoku under this alias (and the package declares an identifier "kessoku")
